@@ -3,6 +3,10 @@
 //!
 //! legs (argv[1]):
 //!   lp       case `#bytes`                      -> `( #what-OsString::hash-writes  same_through_HashToDigest )`
+//!   lpx      case `#bytes`                      -> `( #prefix #suffix )` | unknown : WHAT reaches the Digest when the bytes are
+//!            hashed through `HashToDigest` (which may override Hasher methods), found by matching the real digest
+//!            against prefix ++ bytes ++ suffix for a family of length announcements (none, u8/u16/u32/u64 le+be, LEB128,
+//!            decimal; suffix none/0xff/0x00) and then against every 1- and (short inputs) 2-byte prefix
 //!   key      case `( (label..) ( req ... ) )`                 -> `( #key ... )`      req = ( digest plusplus Lang (arg..) (extra..) ((k v)..) pp )
 //!   ppkey    case `( (label..) ( preq ... ) )`                -> `( #key|none|err ... )`
 //!                                                   preq = ( digest plusplus Lang (arg..) (extra..) ((k v)..) path input ignore_time
@@ -11,13 +15,24 @@
 //!                                                   (year month day) is the local date the case was generated on: a request whose
 //!                                                   key depends on the date answers `date_changed` when that is not today
 //!   ppkey-root  same, after chroot() into a private scratch root (so that absolute paths such as /c++/x.h can exist)
+//!   driver   case `( (label..) ( (exe kind version) ... ) pp_text exe_bytes )`   version = () | ( #text )
+//!            -> `( #key | undetected | cannot_cache | err | panic ... )`: for every member an executable file named
+//!            `exe` with contents `exe_bytes` is detected by the REAL get_compiler_info through a mock process creator
+//!            whose probe answers `compiler_id=<kind>` / `compiler_version=<version>`; then the real parse_arguments
+//!            and generate_hash_key run for `-c foo.c -o foo.o` with `pp_text` as the preprocessor's output: the key
+//!            printed is what hash_key returns with the plusplus() of the detected compiler
 //!   hashpre  case `( item ... )`                -> `( #key|none ... )`  item = none | ( piece ... ),
-//!                                                   piece = #literal-bytes | ( #contents )  (= util::hex(BLAKE3(contents)))
+//!                                                   piece = #literal-bytes | ( piece ... )  (= util::hex(BLAKE3(the inner pieces)))
 //!            (this leg turns the MODEL's pre-image into a key: BLAKE3 + `util::hex`, flushing after every line so
 //!             that lib/props/c02.py can keep one process open)
 use filetime::{set_file_mtime, FileTime};
 use sccache::util::{Digest, HashToDigest};
-use sccache::verif_hooks::cache::PreprocessorCacheModeConfig;
+use sccache::verif_hooks::cache::disk::DiskCache;
+use sccache::verif_hooks::cache::{CacheMode, PreprocessorCacheModeConfig, Storage};
+use sccache::verif_hooks::compiler::{get_compiler_info, CacheControl, CompilerArguments};
+use sccache::verif_hooks::jobserver::Client;
+use sccache::verif_hooks::mock_command::{CommandCreatorSync, MockChild, MockCommandCreator};
+use std::sync::{Arc, Mutex};
 use sccache::verif_hooks::compiler::c::hash_key;
 use sccache::verif_hooks::compiler::preprocessor_cache::preprocessor_cache_entry_hash_key;
 use sccache::verif_hooks::compiler::Language;
@@ -89,6 +104,76 @@ fn leg_lp(case: &Sx) -> Sx {
     Sx::L(vec![Sx::B(r.0), Sx::bool(d1.finish() == d2.finish())])
 }
 
+fn leb128(mut v: u64) -> Vec<u8> {
+    let mut out = vec![];
+    loop {
+        let b = (v & 0x7f) as u8;
+        v >>= 7;
+        if v == 0 {
+            out.push(b);
+            return out;
+        }
+        out.push(b | 0x80);
+    }
+}
+
+fn leg_lpx(case: &Sx) -> Sx {
+    let bytes = case.bytes();
+    let s = os(case);
+    let mut d = Digest::new();
+    s.hash(&mut HashToDigest { digest: &mut d });
+    let want = d.finish();
+    let n = bytes.len() as u64;
+    let hit = |pre: &[u8], suf: &[u8]| {
+        let mut m = Digest::new();
+        m.update(pre);
+        m.update(bytes);
+        m.update(suf);
+        m.finish() == want
+    };
+    let mut family: Vec<Vec<u8>> = vec![
+        vec![],
+        n.to_le_bytes().to_vec(),
+        (n as u32).to_le_bytes().to_vec(),
+        (n as u16).to_le_bytes().to_vec(),
+        vec![n as u8],
+        n.to_be_bytes().to_vec(),
+        (n as u32).to_be_bytes().to_vec(),
+        (n as u16).to_be_bytes().to_vec(),
+        leb128(n),
+        n.to_string().into_bytes(),
+        (n as u128).to_le_bytes().to_vec(),
+    ];
+    for t in [b' ', b':', b',', 0u8, 0xffu8] {
+        let mut v = n.to_string().into_bytes();
+        v.push(t);
+        family.push(v);
+    }
+    let sufs: [&[u8]; 3] = [&[], &[0xff], &[0]];
+    for suf in sufs {
+        for pre in &family {
+            if hit(pre, suf) {
+                return Sx::L(vec![Sx::B(pre.clone()), Sx::B(suf.to_vec())]);
+            }
+        }
+    }
+    for a in 0..=255u8 {
+        if hit(&[a], &[]) {
+            return Sx::L(vec![Sx::B(vec![a]), Sx::B(vec![])]);
+        }
+    }
+    if bytes.len() <= 64 {
+        for a in 0..=255u8 {
+            for b in 0..=255u8 {
+                if hit(&[a, b], &[]) {
+                    return Sx::L(vec![Sx::B(vec![a, b]), Sx::B(vec![])]);
+                }
+            }
+        }
+    }
+    Sx::sym("unknown")
+}
+
 fn key_of(req: &Sx) -> Sx {
     let lang = match lang_of(&req.arg(2).str()) {
         Some(l) => l,
@@ -120,6 +205,32 @@ fn contains(hay: &[u8], needle: &[u8]) -> bool {
     hay.windows(needle.len()).any(|w| w == needle)
 }
 
+struct PathLock(Option<std::fs::File>);
+impl PathLock {
+    fn take(path: &[u8]) -> PathLock {
+        let mut d = Digest::new();
+        d.update(path);
+        let dir = "/dev/shm/vh-c02-locks";
+        let _ = std::fs::create_dir_all(dir);
+        let f = std::fs::OpenOptions::new().create(true).write(true).open(format!("{}/{}", dir, &d.finish()[..2])).ok(); // 256 buckets
+        if let Some(f) = &f {
+            unsafe {
+                libc::flock(std::os::unix::io::AsRawFd::as_raw_fd(f), libc::LOCK_EX);
+            }
+        }
+        PathLock(f)
+    }
+}
+impl Drop for PathLock {
+    fn drop(&mut self) {
+        if let Some(f) = &self.0 {
+            unsafe {
+                libc::flock(std::os::unix::io::AsRawFd::as_raw_fd(f), libc::LOCK_UN);
+            }
+        }
+    }
+}
+
 fn ppkey_of(req: &Sx) -> Sx {
     let lang = match lang_of(&req.arg(2).str()) {
         Some(l) => l,
@@ -128,6 +239,8 @@ fn ppkey_of(req: &Sx) -> Sx {
     let digest = String::from_utf8_lossy(req.arg(0).bytes()).into_owned();
     let path_os = os(req.arg(6));
     let path = Path::new(&path_os);
+    // shrinking / neighbour searches run variants of ONE case (one path) in parallel processes: serialise per path
+    let _guard = PathLock::take(path_os.as_bytes());
     if let Some(parent) = path.parent() {
         let _ = std::fs::create_dir_all(parent);
     }
@@ -185,26 +298,111 @@ fn enter_private_root() -> bool {
     unsafe { libc::chroot(c.as_ptr()) == 0 && libc::chdir(b"/\0".as_ptr() as *const libc::c_char) == 0 }
 }
 
+fn exit_ok() -> std::process::ExitStatus {
+    std::os::unix::process::ExitStatusExt::from_raw(0)
+}
+
+fn driver_key(rt: &tokio::runtime::Runtime, storage: &Arc<dyn Storage>, root: &Path, n: usize, d: &Sx, pp: &[u8], exe_bytes: &[u8]) -> Sx {
+    let dir = root.join(format!("d{}", n));
+    let cwd = dir.join("w");
+    let bin = dir.join("bin");
+    if std::fs::create_dir_all(&cwd).is_err() || std::fs::create_dir_all(&bin).is_err() {
+        return Sx::sym("err");
+    }
+    let exe = bin.join(OsStr::from_bytes(d.arg(0).bytes()));
+    if std::fs::write(&exe, exe_bytes).is_err() || std::fs::write(cwd.join("foo.c"), b"int x;\n").is_err() {
+        return Sx::sym("err");
+    }
+    let _ = std::fs::set_permissions(&exe, std::os::unix::fs::PermissionsExt::from_mode(0o755));
+    let creator: Arc<Mutex<MockCommandCreator>> = CommandCreatorSync::new(&Client::new_num(1));
+    let mut probe = b"compiler_id=".to_vec();
+    probe.extend_from_slice(d.arg(1).bytes());
+    probe.push(b'\n');
+    if let Some(v) = d.arg(2).list().first() {
+        probe.extend_from_slice(b"compiler_version=");
+        probe.extend_from_slice(v.bytes());
+        probe.push(b'\n');
+    }
+    creator.lock().unwrap().next_command_spawns(Ok(MockChild::new(exit_ok(), probe, "")));
+    let pool = rt.handle().clone();
+    let compiler = match rt.block_on(get_compiler_info(creator.clone(), &exe, &cwd, &[], &[], &pool, None)) {
+        Ok((c, _)) => c,
+        Err(_) => return Sx::sym("undetected"),
+    };
+    creator.lock().unwrap().children.clear();
+    creator.lock().unwrap().next_command_spawns(Ok(MockChild::new(exit_ok(), pp, "")));
+    let args: Vec<OsString> = vec!["-c".into(), "foo.c".into(), "-o".into(), "foo.o".into()];
+    let hasher = match compiler.parse_arguments(&args, &cwd, &[]) {
+        CompilerArguments::Ok(h) => h,
+        _ => return Sx::sym("cannot_cache"),
+    };
+    let r = rt.block_on(hasher.generate_hash_key(
+        &creator,
+        cwd.clone(),
+        vec![],
+        false,
+        &pool,
+        false,
+        storage.clone(),
+        CacheControl::Default,
+    ));
+    match r {
+        Ok(h) => Sx::B(h.key.into_bytes()),
+        Err(_) => Sx::sym("err"),
+    }
+}
+
+fn leg_driver() {
+    let rt = tokio::runtime::Builder::new_current_thread().enable_all().build().unwrap();
+    let td = tempfile::Builder::new().prefix("vh-c02-drv-").tempdir_in("/dev/shm").unwrap();
+    let root = td.path().to_path_buf();
+    let storage: Arc<dyn Storage> = Arc::new(DiskCache::new(
+        root.join("cache"),
+        1 << 24,
+        rt.handle(),
+        PreprocessorCacheModeConfig { use_preprocessor_cache_mode: false, ..Default::default() },
+        CacheMode::ReadWrite,
+    ));
+    let mut n = 0usize;
+    vh::run_lines(|c| {
+        let pp = c.arg(2).bytes().to_vec();
+        let exe_bytes = c.arg(3).bytes().to_vec();
+        let out = c
+            .arg(1)
+            .list()
+            .iter()
+            .map(|d| {
+                n += 1;
+                let r = vh::catch(|| driver_key(&rt, &storage, &root, n, d, &pp, &exe_bytes)).unwrap_or_else(|_| Sx::sym("panic"));
+                let _ = std::fs::remove_dir_all(root.join(format!("d{}", n)));
+                r
+            })
+            .collect();
+        Sx::L(out)
+    });
+}
+
+fn digest_of(pieces: &[Sx]) -> Option<String> {
+    let mut m = Digest::new();
+    for p in pieces {
+        match p {
+            Sx::B(b) => m.update(b),
+            Sx::L(l) => m.update(digest_of(l)?.as_bytes()),
+            Sx::N(_) => return None,
+        }
+    }
+    Some(m.finish())
+}
+
 fn hash_pieces(item: &Sx) -> Sx {
     if let Sx::B(_) = item {
         // none / unknown_lang / ... : not a pre-image, passed through
         return item.clone();
     }
-    let mut m = Digest::new();
-    for p in item.list() {
-        match p {
-            Sx::B(b) => m.update(b),
-            Sx::L(l) => {
-                let mut inner = Digest::new();
-                if let Some(c) = l.first() {
-                    inner.update(c.bytes());
-                }
-                m.update(inner.finish().as_bytes());
-            }
-            Sx::N(_) => return Sx::sym("bad_piece"),
-        }
+    match digest_of(item.list()) {
+        Some(k) => Sx::B(k.into_bytes()),
+        None => Sx::sym("bad_piece"),
     }
-    Sx::B(m.finish().into_bytes())
 }
 
 fn main() {
@@ -212,8 +410,10 @@ fn main() {
     let leg = std::env::args().nth(1).unwrap_or_default();
     match leg.as_str() {
         "lp" => vh::run_lines(leg_lp),
+        "lpx" => vh::run_lines(leg_lpx),
         "key" => vh::run_lines(|c| Sx::L(c.arg(1).list().iter().map(key_of).collect())),
         "ppkey" => vh::run_lines(|c| Sx::L(c.arg(1).list().iter().map(ppkey_of).collect())),
+        "driver" => leg_driver(),
         "ppkey-root" => {
             let ok = enter_private_root();
             vh::run_lines(|c| {
